@@ -95,6 +95,20 @@ M = [
  ('C20_tab_offbyone', 'C20', 'pico8/game/formatter/p8.py',
   "        elif inc_tab is None or inc_tab == cur_tab:",
   "        elif inc_tab is None or inc_tab == cur_tab or (inc_tab > 2 and inc_tab == cur_tab + 1):"),
+ ('C02_cli_luamin_drops_keepfile', 'C02', 'pico8/tool.py',
+  "            'keep_names_from_file': args.keep_names_from_file})",
+  "            'keep_names_from_file': None})"),
+ ('C06_build_copy_strips_comments', 'C06', 'pico8/build/build.py',
+  "                source = file.from_file(fn)\n                setattr(result, section, getattr(source, section))",
+  "                source = file.from_file(fn)\n                if section == 'lua':\n                    source.lua.reparse(writer_cls=lua.LuaMinifyTokenWriter, writer_args={'keep_all_names': True})\n                setattr(result, section, getattr(source, section))"),
+ ('C19_cli_png_header', 'C19', 'pico8/game/formatter/p8png.py',
+  "        code_bytes = get_bytes_from_code(b''.join(cart_lua))",
+  "        code_bytes = get_bytes_from_code(b''.join(cart_lua).lstrip(b'-/ '))"),
+ ('C20_lua_include_cache', 'C20', 'pico8/game/formatter/p8.py',
+  ["TAB_LINE_RE = re.compile(br'-->8')",
+   "            with open(inc_full_path, 'rb') as fh:\n                for line in fh:\n                    yield line"],
+  ["TAB_LINE_RE = re.compile(br'-->8')\n_LUA_CACHE = {}",
+   "            if inc_full_path not in _LUA_CACHE:\n                with open(inc_full_path, 'rb') as fh:\n                    _LUA_CACHE[inc_full_path] = list(fh)\n            for line in _LUA_CACHE[inc_full_path]:\n                yield line"]),
 ]
 
 out = '/verif/mutants'
@@ -106,10 +120,14 @@ try:
     for name, pid, f, old, new in M:
         p = os.path.join(scratch, f)
         s = open(p, encoding='utf-8').read()
-        if old not in s:
+        olds = old if isinstance(old, list) else [old]
+        news = new if isinstance(new, list) else [new]
+        if any(o not in s for o in olds):
             print('OLD TEXT NOT FOUND for', name)
             continue
-        open(p, 'w', encoding='utf-8').write(s.replace(old, new, 1))
+        for o, n_ in zip(olds, news):
+            s = s.replace(o, n_, 1)
+        open(p, 'w', encoding='utf-8').write(s)
         d = subprocess.run(['git', '-C', scratch, 'diff'], capture_output=True, text=True).stdout
         open(os.path.join(out, name + '.patch'), 'w').write(d)
         subprocess.run(['git', '-C', scratch, 'checkout', '-q', '--', '.'], check=True)
